@@ -1,7 +1,27 @@
 """C17 — indexing a tainted fixed-size array is bounds-checked for every index type."""
+from harness import vlib, m3_ast, m3_ptr
 from harness.props.ptrcommon import *
 PROP = "C17"
-COQ_FILES = ["Machine.v", "Ptr.v", "Ptr_proofs.v", "Layout.v"]
+COQ_FILES = ["Machine.v", "Ptr.v", "Ptr_proofs.v", "Layout.v", "PtrAst.v"]
+M3 = {}
+
+
+def pre_generate(ctx):
+    """M3 for the fixed-size-array branch of operator[]: clang's AST of the instantiated tainted<double[7]>::operator[]<K&> and
+    tainted_volatile<double[9]>::operator[]<K&> (14 index types K) is translated into programs of coq/PtrAst.v; the kernel proves
+    each equal to Ptr.arr_index K for EVERY index value of K, array length, start address and element size"""
+    M3.clear()
+    try:
+        progs = m3_ptr.translate(vlib.INCLUDE, ctx.build)
+    except m3_ast.Unknown as ex:
+        M3["untranslated"] = str(ex)
+        return
+    m3_ptr.run_generated(ctx, M3, "Gen_ArrPrograms.v", m3_ptr.emit_arrays(progs))
+    M3["sample"] = {"%s<%s>" % k: str(v) for k, v in sorted(progs.items()) if k[0] in ("arrT", "arrV") and k[1] in ("schar", "ullong")}
+
+
+def extra_checks(ctx, exes):
+    m3_ptr.report(ctx, M3, "C17", "array operator[]", "Gen_ArrPrograms", "Ptr.arr_index")
 DRIVERS = drivers("AIDX", ["aidx", "aidx2"])
 ELKS = ["char", "short", "int", "long", "ullong", "ptr"]
 LENS = [1, 2, 3, 4, 7, 16]
@@ -46,5 +66,8 @@ def NONTRIVIAL(case, model, cls):
 RULE = ("{application-memory array, sandbox-memory array} x element types {char short int long ullong pointer} x lengths {1,2,3,4,7,16} x "
         "11 index kinds (+ tainted indices) x n in {-1,0,1,len-1,len,len+1,2len-1,2len,type min/max, len-1+2^8, len-1+2^16, len-1+2^32, 2^63+len-1,...}; "
         "2-D shapes long[2][3], int[3][2], int*[2][4]; reported: element offset under the layout of the memory the array lives in")
-TRUSTED = ["model coq/Ptr.v arr_index hand-written; tied by differential correspondence"]
+TRUSTED = ["model coq/Ptr.v arr_index hand-written; tied by differential correspondence",
+           "M3 (array operator[]): harness/m3_ptr.py translator from clang 14's JSON AST; assumed of the nodes it treats as transparent: detail::unwrap_value of a plain integer is that integer, "
+           "get_raw_value_ref()/get_sandbox_value_ref() is the array held, std::array::operator[](i) / a[i] designates start + i * element size of the memory the array lives in (checked by the "
+           "address cases of this same run), std::extent_v is the declared length, remove_volatile_from_ptr_cast and pointer casts keep the address"]
 ASSUMPTIONS = ["bool is not an index type (make_unsigned_t<bool> does not compile)"]
